@@ -1026,12 +1026,17 @@ pub fn names_case(inp: &Input, cfg: &Cfg, gc_runs: u32) -> Value {
 // ---- index maps (C19) -------------------------------------------------------------------------
 
 pub fn maps_case(inp: &Input, gc_runs: u32) -> Value {
+    maps_case_cfg(inp, gc_runs, false)
+}
+
+/// `xform`: with preserve_code_transform on (the emitter takes another path through the code section then)
+pub fn maps_case_cfg(inp: &Input, gc_runs: u32, xform: bool) -> Value {
     use std::sync::{Arc, Mutex};
     let inm = absmod::project(&inp.bytes).map(strip_ops_keep_locals).unwrap_or_default();
     let cap: Arc<Mutex<(Value, Value, Vec<Value>)>> = Arc::new(Mutex::new((Value::Null, Value::Null, vec![])));
     let cap2 = cap.clone();
     let n_funcs = inm.funcs.len();
-    let mut config = Cfg::default().to_config();
+    let mut config = Cfg { xform, ..Default::default() }.to_config();
     config.on_parse(move |m, ids| {
         let st = strip_ops(crate::apistate::project_state(m));
         macro_rules! cap {
@@ -1103,7 +1108,7 @@ pub fn maps_case(inp: &Input, gc_runs: u32) -> Value {
         "elem": arr(&em.emit.elem, st2.elems.len()), "data": arr(&em.emit.data, st2.data.len()),
     });
     let (st1, i2id, locals) = cap.lock().unwrap().clone();
-    json!({"id": format!("{}~gc{}", inp.id, gc_runs), "source": inp.source, "outcome": "ok", "inm": inm, "st1": st1, "i2id": i2id, "locals": locals,
+    json!({"id": format!("{}~gc{}{}", inp.id, gc_runs, if xform { "~xform" } else { "" }), "source": inp.source, "outcome": "ok", "inm": inm, "st1": st1, "i2id": i2id, "locals": locals,
            "st2": st2, "id2idx": id2idx, "outm": outm})
 }
 
